@@ -281,3 +281,214 @@ theorem leaf_untyped {n : Str} {X : Option Str} (t : Ty) (hn : NameFits n)
     · unfold inferDefaultValue; rw [splitFirst_append _ n3]; simp only [d2]
 
 end Rpft.Infer
+
+namespace Rpft.Infer
+open Rpft
+
+/-! ### a simple field: its one header parses back to (name, type, default) -/
+
+theorem basicAlpha_ok : ∀ T ∈ [sInt, sFloat, sBool, sList], ∀ c ∈ T,
+    pyWs c = false ∧ c ≠ sepField ∧ c ≠ sepType ∧ c ≠ sepDefault := by decide
+
+theorem defFits_int (i : Int) : DefFits (if i = 0 then none else some (intToStr i)) := by
+  split
+  · trivial
+  · exact ⟨fun h => (intToStr_noWs i _ h).2.1 rfl, strip_noWs (fun c hc => (intToStr_noWs i c hc).1)⟩
+
+theorem value_int (i : Int) :
+    valueForType .int (if i = 0 then none else some (intToStr i)) = .ok (.int i) := by
+  split
+  · next h => subst h; rfl
+  · simp [valueForType, pyInt_intToStr]
+
+theorem value_float (i : Int) :
+    valueForType .float (if i = 0 then none else some (intToStr i)) = .ok (.float i) := by
+  split
+  · next h => subst h; rfl
+  · simp [valueForType, pyInt_intToStr]
+
+theorem parseHA_of {h : Str} {t : Ty} {d : Val} (h1 : inferType h = .ok t)
+    (h2 : inferDefaultValue t h = .ok d) : parseHeaderAnnotations h = .ok (t, d) := by
+  simp [parseHeaderAnnotations, h1, h2, bind, Except.bind, pure, Except.pure]
+
+theorem leaf_roundtrip {n : Str} (hn : NameFits n) : ∀ (t : Ty) (d : Val),
+    isSimple t d = true → famTD t d = true →
+    splitFirst sepField (n ++ (annOf t ++ dflOf d)) = none ∧
+    getFieldName (n ++ (annOf t ++ dflOf d)) = n ∧
+    parseHeaderAnnotations (n ++ (annOf t ++ dflOf d)) = .ok (t, d)
+  | .str, .str s, _, hf => by
+    simp only [famTD, defStrOk, Bool.and_eq_true, Bool.not_eq_true', beq_iff_eq,
+      List.contains_eq_mem, decide_eq_false_iff_not] at hf
+    obtain ⟨⟨s1, s2⟩, s3⟩ := hf
+    have hX : DefFits (if s = [] then none else some s) := by
+      split
+      · trivial
+      · exact ⟨s1, s3⟩
+    have hc : ∀ D, (if s = [] then none else some s) = some D → sepType ∉ D := by
+      intro D hD; split at hD
+      · cases hD
+      · cases hD; exact s2
+    have := leaf_untyped (n := n) .str hn hX hc
+    simp only [annOf, dflOf, dflX, List.nil_append]
+    refine ⟨this.1, this.2.1, parseHA_of this.2.2.1 ?_⟩
+    rw [this.2.2.2]
+    split <;> simp_all [valueForType]
+  | .int, .int i, _, _ => by
+    have := leaf_typed (n := n) (T := sInt) .int hn (basicAlpha_ok sInt (by simp)) (defFits_int i)
+    simp only [annOf, dflOf, dflX, renderTy, List.cons_append]
+    refine ⟨this.1, this.2.1, parseHA_of (this.2.2.1.trans (typeFromString_render .int rfl)) ?_⟩
+    rw [this.2.2.2, value_int]
+  | .float, .float i, _, _ => by
+    have := leaf_typed (n := n) (T := sFloat) .float hn (basicAlpha_ok sFloat (by simp)) (defFits_int i)
+    simp only [annOf, dflOf, dflX, renderTy, List.cons_append]
+    refine ⟨this.1, this.2.1, parseHA_of (this.2.2.1.trans (typeFromString_render .float rfl)) ?_⟩
+    rw [this.2.2.2, value_float]
+  | .bool, .bool b, _, _ => by
+    have hX : DefFits (if b = true then some ['T', 'r', 'u', 'e'] else none) := by
+      cases b
+      · trivial
+      · exact ⟨by decide, by decide⟩
+    have := leaf_typed (n := n) (T := sBool) .bool hn (basicAlpha_ok sBool (by simp)) hX
+    simp only [annOf, dflOf, dflX, renderTy, List.cons_append]
+    refine ⟨this.1, this.2.1, parseHA_of (this.2.2.1.trans (typeFromString_render .bool rfl)) ?_⟩
+    rw [this.2.2.2]
+    cases b
+    · rfl
+    · simp [valueForType, strToBool, lowerAscii]
+  | .anyList, .list [], _, _ => by
+    have := leaf_typed (n := n) (T := sList) (X := none) .anyList hn (basicAlpha_ok sList (by simp)) trivial
+    simp only [annOf, dflOf, dflX, renderTy, List.cons_append]
+    exact ⟨this.1, this.2.1, parseHA_of (this.2.2.1.trans (typeFromString_render .anyList rfl)) (by rw [this.2.2.2]; rfl)⟩
+  | .list t, .list [], _, hf => by
+    have ha : annTy (.list t) = true := by simpa [famTD, annTy] using hf
+    have hT : ∀ c ∈ renderTy (.list t), pyWs c = false ∧ c ≠ sepField ∧ c ≠ sepType ∧ c ≠ sepDefault :=
+      fun c hc => tyAlpha_ok c (renderTy_alpha _ ha c hc)
+    have := leaf_typed (n := n) (X := none) (.list t) hn hT trivial
+    simp only [annOf, dflOf, dflX, List.cons_append]
+    exact ⟨this.1, this.2.1, parseHA_of (this.2.2.1.trans (typeFromString_render _ ha)) (by rw [this.2.2.2]; rfl)⟩
+  | .list t, .list (_ :: _), hs, _ => by simp [isSimple] at hs
+  | .model _, _, hs, _ => by simp [isSimple] at hs
+  | .str, .none, _, hf | .str, .int _, _, hf | .str, .float _, _, hf | .str, .bool _, _, hf
+  | .str, .list _, _, hf | .str, .record _, _, hf => by simp [famTD] at hf
+  | .int, .none, _, hf | .int, .str _, _, hf | .int, .float _, _, hf | .int, .bool _, _, hf
+  | .int, .list _, _, hf | .int, .record _, _, hf => by simp [famTD] at hf
+  | .float, .none, _, hf | .float, .str _, _, hf | .float, .int _, _, hf | .float, .bool _, _, hf
+  | .float, .list _, _, hf | .float, .record _, _, hf => by simp [famTD] at hf
+  | .bool, .none, _, hf | .bool, .str _, _, hf | .bool, .int _, _, hf | .bool, .float _, _, hf
+  | .bool, .list _, _, hf | .bool, .record _, _, hf => by simp [famTD] at hf
+  | .anyList, .none, _, hf | .anyList, .str _, _, hf | .anyList, .int _, _, hf
+  | .anyList, .float _, _, hf | .anyList, .bool _, _, hf | .anyList, .list (_ :: _), _, hf
+  | .anyList, .record _, _, hf => by simp [famTD] at hf
+  | .list _, .none, _, hf | .list _, .str _, _, hf | .list _, .int _, _, hf
+  | .list _, .float _, _, hf | .list _, .bool _, _, hf | .list _, .record _, _, hf => by
+    simp [famTD] at hf
+
+end Rpft.Infer
+
+namespace Rpft.Infer
+open Rpft
+
+/-! ### the loops of `model_from_headers_rec` on the headers of simple fields -/
+
+theorem dictSet_fresh {α : Type} : ∀ (d : List (Str × α)) (k : Str) (v : α),
+    (∀ p ∈ d, p.1 ≠ k) → dictSet d k v = d ++ [(k, v)]
+  | [], _, _, _ => rfl
+  | (k', v') :: d, k, v, h => by
+    have h1 : k' ≠ k := h (k', v') (by simp)
+    simp [dictSet, h1, dictSet_fresh d k v (fun p hp => h p (by simp [hp]))]
+
+theorem renderTD_simple : ∀ (t : Ty) (d : Val), isSimple t d = true →
+    renderTD t d = [annOf t ++ dflOf d]
+  | .model _, _, h => by simp [isSimple] at h
+  | .list _, .list (_ :: _), h => by simp [isSimple] at h
+  | .list _, .list [], _ | .list _, .none, _ | .list _, .str _, _ | .list _, .int _, _
+  | .list _, .float _, _ | .list _, .bool _, _ | .list _, .record _, _ => by simp [renderTD]
+  | .str, _, _ | .int, _, _ | .float, _, _ | .bool, _, _ | .anyList, _, _ => by simp [renderTD]
+
+/-- a record's simple fields, rendered, are read back one by one into `fields` -/
+theorem pass1_simples : ∀ (S : List Field) (rest : List Str) (acc : List Field)
+    (cx : List (Str × List Str)),
+    (∀ f ∈ S, NameFits f.1 ∧ isSimple f.2.1 f.2.2 = true ∧ famTD f.2.1 f.2.2 = true) →
+    nodupStr (S.map (fun f => f.1)) = true →
+    (∀ f ∈ S, ∀ p ∈ acc, p.1 ≠ f.1) →
+    pass1 (renderFs S ++ rest) (acc, cx) = pass1 rest (acc ++ S, cx)
+  | [], rest, acc, cx, _, _, _ => by simp [renderFs]
+  | (n, t, d) :: S, rest, acc, cx, h, hd, hacc => by
+    have h0 := h (n, t, d) (by simp)
+    have hn : NameFits n := h0.1
+    have hs : isSimple t d = true := h0.2.1
+    have hf : famTD t d = true := h0.2.2
+    have lr := leaf_roundtrip hn t d hs hf
+    simp only [nodupStr, List.map_cons, Bool.and_eq_true, Bool.not_eq_true',
+      List.contains_eq_mem, decide_eq_false_iff_not] at hd
+    have fresh : ∀ p ∈ acc, p.1 ≠ n := hacc (n, t, d) (by simp)
+    have ih := pass1_simples S rest (acc ++ [(n, t, d)]) cx
+      (fun f hf' => h f (by simp [hf'])) hd.2
+      (by
+        intro f hf' p hp
+        rcases List.mem_append.mp hp with hp | hp
+        · exact hacc f (by simp [hf']) p hp
+        · simp at hp; subst hp
+          intro e
+          have e' : n = f.1 := e
+          exact hd.1 (List.mem_map.mpr ⟨f, hf', e'.symm⟩))
+    rw [renderFs, renderTD_simple t d hs]
+    simp only [List.map_cons, List.map_nil, List.cons_append, List.nil_append]
+    rw [pass1, lr.1]
+    simp only [lr.2.2, lr.2.1]
+    rw [dictSet_fresh acc n (t, d) fresh, ih]
+    simp
+
+theorem collectInts_none : ∀ (fs : List Field), (∀ f ∈ fs, pyInt f.1 = .invalid) →
+    collectInts fs = .ok []
+  | [], _ => rfl
+  | (k, t, d) :: fs, h => by
+    have h1 : pyInt k = .invalid := h (k, t, d) (by simp)
+    simp [collectInts, h1, collectInts_none fs (fun f hf => h f (by simp [hf]))]
+
+theorem shadowCheck_ok : ∀ (fs : List Field), (∀ f ∈ fs, shadowNames.contains f.1 = false) →
+    shadowCheck fs = .ok ()
+  | [], _ => rfl
+  | (k, t, d) :: fs, h => by
+    have h1 : shadowNames.contains k = false := h (k, t, d) (by simp)
+    simp only [shadowCheck, h1]
+    exact shadowCheck_ok fs (fun f hf => h f (by simp [hf]))
+
+/-- no integer key, no refused name ⇒ `create_model` with exactly these fields -/
+theorem finish_model (fs : List Field) (h1 : ∀ f ∈ fs, pyInt f.1 = .invalid)
+    (h2 : ∀ f ∈ fs, (f.1.head? == some '_') = false)
+    (h3 : ∀ f ∈ fs, shadowNames.contains f.1 = false) :
+    finish fs = .ok (.model fs, defaultRecord fs) := by
+  have h2' : fs.any (fun f => f.1.head? == some '_') = false := by
+    rw [List.any_eq_false]; intro f hf; simp [h2 f hf]
+  simp [finish, collectInts_none fs h1, nameCheck, h2', shadowCheck_ok fs h3]
+
+/-- the hypotheses bundled in `namesOk`, unpacked -/
+theorem namesOk_unpack {fs : List Field} (h : namesOk fs = true) :
+    (∀ f ∈ fs, NameFits f.1) ∧ (∀ f ∈ fs, pyInt f.1 = .invalid) ∧
+    (∀ f ∈ fs, (f.1.head? == some '_') = false) ∧
+    (∀ f ∈ fs, shadowNames.contains f.1 = false) ∧
+    nodupStr (fs.map (fun f => f.1)) = true ∧
+    simpleFirst (fs.map (fun f => isSimple f.2.1 f.2.2)) = true := by
+  simp only [namesOk, Bool.and_eq_true, List.all_eq_true, nameOk, Bool.not_eq_true',
+    beq_iff_eq, List.contains_eq_mem, decide_eq_false_iff_not] at h
+  obtain ⟨⟨ha, hd⟩, hs⟩ := h
+  refine ⟨?_, ?_, ?_, ?_, hd, hs⟩
+  · intro f hf
+    obtain ⟨⟨⟨⟨⟨⟨a1, a2⟩, a3⟩, a4⟩, _⟩, _⟩, _⟩ := ha f hf
+    exact ⟨a1, a2, a3, a4⟩
+  · intro f hf; exact (ha f hf).2
+  · intro f hf; exact (ha f hf).1.1.2
+  · intro f hf
+    have := (ha f hf).1.2
+    simpa using this
+
+theorem famFs_mem : ∀ {fs : List Field}, famFs fs = true → ∀ f ∈ fs, famTD f.2.1 f.2.2 = true
+  | [], _, f, hf => by simp at hf
+  | (n, t, d) :: fs, h, f, hf => by
+    simp only [famFs, Bool.and_eq_true] at h
+    rcases List.mem_cons.mp hf with e | e
+    · subst e; exact h.1
+    · exact famFs_mem h.2 f e
+
+end Rpft.Infer
